@@ -17,7 +17,9 @@ SESSION_DIRECT_READ = ["get_node", "get_node_property", "get_edge", "get_neighbo
 # checker error (a new piece of shared state has to be classified before effect rules are believed).
 LPG_CELLS = {
     "nodes": "versioned", "edges": "versioned",
-    "node_versions": "versioned", "edge_versions": "versioned", "epoch_store": "versioned", "arena_allocator": "versioned",
+    "node_versions": "versioned", "edge_versions": "versioned",
+    # record payloads of the tiered configuration: reachable only through the version indexes above
+    "epoch_store": "payload", "arena_allocator": "payload",
     "node_properties": "data", "edge_properties": "data", "label_index": "data", "node_labels": "data",
     "forward_adj": "data", "backward_adj": "data", "property_indexes": "index", "vector_indexes": "index",
     "label_to_id": "catalog", "id_to_label": "catalog", "edge_type_to_id": "catalog", "id_to_edge_type": "catalog",
@@ -206,3 +208,11 @@ def index_move_order(ctx, P, rule):
                         "while a scan still finds it" % f.id.split("::")[-1], where=f.loc())
     ctx.floor(rule, n3, 1, "functions that move an entity between property-index buckets")
 
+
+
+def versioned_cells(P):
+    """names of the version-table cells of LpgStore in the analysed configuration"""
+    names = [f[0] for v in P.adts[LPG]["variants"] for f in v["fields"]]
+    if "node_versions" in names:
+        return {"nodes": "node_versions", "edges": "edge_versions"}
+    return {"nodes": "nodes", "edges": "edges"}
